@@ -71,6 +71,21 @@ let s_report rep =
     String.concat ";" (List.map (fun row -> String.concat "," (List.map s_field row)) rep.rep_info);
     String.concat ";" (List.map s_event rep.rep_events) ]
 
+(* ---- parser model *)
+let int_of_atype = function Front -> 0 | RightmostFront -> 1 | Back -> 2 | Anywhere -> 3 | NonInternalFront -> 4
+  | NonInternalBack -> 5 | Prefix -> 6 | Suffix -> 7
+let s_name = function None -> "-" | Some n -> "n" ^ szl n
+let s_desc d =
+  String.concat "," [string_of_int (int_of_atype d.d_class); szl d.d_sequence; sz d.d_rate.qnum ^ "/" ^ string_of_int (int_of_pos d.d_rate.qden);
+                     sz d.d_min_overlap; sb d.d_read_wildcards; sb d.d_adapter_wildcards; sb d.d_indels; sb d.d_force_anywhere; s_name d.d_name]
+let s_out = function
+  | OSingle d -> "S," ^ s_desc d
+  | OLinked (n, f, b, fr, br) -> "L," ^ s_name n ^ "," ^ sb fr ^ "," ^ sb br ^ "," ^ s_desc f ^ "," ^ s_desc b
+let value_of s = match ints s with
+  | [n] -> VInt (z_of_int n)
+  | [m; d] -> VDec (z_of_int m, nat_of_int d)
+  | _ -> failwith "value"
+
 let run cmd (a : string array) : string =
   match cmd with
   | "qtrim" -> let (s, e) = quality_trim_index (zl a.(0)) (z1 a.(1)) (z1 a.(2)) (z1 a.(3)) in sz s ^ " " ^ sz e
@@ -111,6 +126,17 @@ let run cmd (a : string array) : string =
         | _ -> failwith "triple" in
       let tab = if String.trim a.(1) = "" then [] else List.map parse_t (String.split_on_char ';' a.(1)) in
       sb (kmers_present (f.(0) <> 0) (f.(1) <> 0) tab (zl a.(2)))
+  (* parse spec|cmdtype(0 front,1 back,2 anywhere)|max_errors (n | mant digits)|min_overlap|rw aw indels|records name,seq;... *)
+  | "parse" ->
+      let t = (match List.hd (ints a.(1)) with 0 -> TFront | 1 -> TBack | _ -> TAnywhere) in
+      let fl = Array.of_list (ints a.(4)) in
+      let g = { g_max_errors = value_of a.(2); g_min_overlap = z1 a.(3); g_read_wildcards = fl.(0) <> 0;
+                g_adapter_wildcards = fl.(1) <> 0; g_indels = fl.(2) <> 0 } in
+      let recs = List.map (fun r -> match String.split_on_char ',' r with
+                    | [n; sq] -> ((if String.trim n = "-" then None else Some (zl n)), zl sq) | _ -> failwith "record") (split ';' a.(5)) in
+      (match make_from_spec (zl a.(0)) t g recs with
+       | Err -> "Err"
+       | Ok l -> String.concat ";" (List.map s_out l))
   | "pipeline" -> s_report (run_cli (options_of a) (List.map read_of (split ';' a.(16))))
   | _ -> failwith ("unknown command " ^ cmd)
 
